@@ -1,10 +1,12 @@
 SPECIFICATION Spec
 CONSTANTS
+  DevLowerCaseExponentOnly = FALSE
+  DevAstralFiveHex = TRUE
+  DoubleOf <- MCDoubleOf
   DevReadFaultAsEof = FALSE
   DevStderrToFd1 = FALSE
   DevValidateLate = FALSE
   DevIndexCountsSkipped = FALSE
-  DevBreakEndsFileOnly = FALSE
-  DevLowerCaseExponentOnly = FALSE
-  DevAstralFiveHex = TRUE
+  DevBreakEndsFileOnly = TRUE
+INVARIANT BreakEndsReading
 CHECK_DEADLOCK FALSE
